@@ -209,7 +209,54 @@ def r3(ctx):
         ctx.ok(rule, "panic-count", detail)
 
 
+def r4(ctx):
+    rule = "C13.R4"
+    ctx.rule(rule, "lookahead discipline: apart from the loop head, Tokenizer::parse consumes a character (`next()` on the peekable "
+                   "character iterator) only after it has inspected that very character with `peek()` - consuming an un-peeked "
+                   "character makes the result depend on what happens to follow (`**/`, `//*`)")
+    P = ctx.program()
+    try:
+        b = P.one("asn1rs_model", "Tokenizer::parse")
+    except KeyError as e:
+        ctx.fail(rule, "anchor-lost:Tokenizer::parse", str(e))
+        return
+
+    def on_chars(cs):
+        return any("Peekable<" in t and "Chars" in t for t in cs.term.get("argtys", []))
+    nexts = [cs for cs in b.calls() if cs.name == "next" and on_chars(cs)]
+    peeks = [cs for cs in b.calls() if cs.name == "peek" and on_chars(cs)]
+    if not nexts or not peeks:
+        ctx.fail(rule, "anchor-lost:character-iterator", "no next()/peek() calls on the character iterator", "%s:%d" % (b.file, b.line))
+        return
+    # loop head: the next() whose block dominates every other use of the iterator
+    head = [n for n in nexts if all(m is n or b.dominates(n.bb, m.bb) for m in nexts + peeks)]
+    if len(head) != 1:
+        ctx.fail(rule, "anchor-lost:loop-head", "cannot identify the `while let Some(..) = it.next()` head (%d candidates)" % len(head),
+                 "%s:%d" % (b.file, b.line))
+        return
+    k = 0
+    for n in nexts:
+        if n is head[0]:
+            continue
+        k += 1
+        # a peek on a path-dominating block, with no other consumption in between
+        pk = [p for p in peeks if p.bb != n.bb and b.dominates(p.bb, n.bb)
+              and not any(m is not n and m is not head[0] and b.dominates(p.bb, m.bb) and b.dominates(m.bb, n.bb) for m in nexts)]
+        tested = [p for p in pk if p.target is not None and any(
+            s != n.bb and b.dominates(p.target, s) and b.dominates(s, n.bb) or s == p.target for s, t in b.switches()
+            if b.dominates(p.target, s) and (s == n.bb or b.dominates(s, n.bb)))]
+        key = "next#%d" % k
+        detail = {"consumes_at": n.loc(), "peeked_at": [p.loc() for p in tested]}
+        if not tested:
+            ctx.fail(rule, key, "a character is consumed without having been peeked at: the token stream now depends on the character "
+                                "that follows (e.g. the second `*` of `**/` is swallowed and the comment never closes)", n.loc(), detail)
+        else:
+            ctx.ok(rule, key, detail)
+    ctx.floor(rule, k, "C13.R4.consumptions")
+
+
 def run(ctx):
     r1(ctx)
     r2(ctx)
     r3(ctx)
+    r4(ctx)
